@@ -117,6 +117,10 @@ func TestVerif_C16Queue(t *testing.T) {
 		g := &vErrGen{r: rv, valid: true} // maddy's own (well-annotated) failures
 		for i := 0; i < nErr; i++ {
 			e, ce, _ := g.gen(1 + rv.intn(3))
+			if e2, ce2, applied := vApplyOverride(ci*3+i, e, ce); applied {
+				e, ce = e2, ce2
+				stats["fail_action_override"]++
+			}
 			errs = append(errs, e)
 			cerrs = append(cerrs, ce)
 		}
